@@ -42,6 +42,7 @@ func init() {
 	plans["C02"] = &Plan{
 		Items: append([]Item{
 			{Plugin: "sites", Func: "hotline.performHandshake", Kinds: siteKinds},
+			{Plugin: "sites", Func: "hotline.(*Server).handleNewConnection", Kinds: siteKinds},
 			{Plugin: "sites", Func: "hotline.(*Server).handleFileTransfer", Kinds: siteKinds},
 			{Plugin: "sites", Func: "hotline.(*flattenedFileObject).ReadFrom", Kinds: siteKinds},
 			{Plugin: "sites", Func: "hotline.receiveFile", Kinds: siteKinds},
@@ -154,6 +155,7 @@ func init() {
 	}
 	plans["C03"] = &Plan{
 		Items: append([]Item{{Plugin: "contain"},
+			{Plugin: "sites", Func: "hotline.(*Server).handleNewConnection", Kinds: []string{"inv-step"}},
 			{Plugin: "handler-contract", Func: "mobius.HandleDisconnectUser", Kinds: []string{"site"}},
 			{Plugin: "handler-contract", Func: "mobius.HandleUpdateUser", Kinds: []string{"site"}},
 			{Plugin: "handler-contract", Func: "mobius.HandleDeleteUser", Kinds: []string{"site"}},
@@ -258,6 +260,9 @@ func init() {
 			{Plugin: "sites", Func: "hotline.UploadHandler", Kinds: siteKinds},
 			{Plugin: "sites", Func: "hotline.receiveFile", Kinds: siteKinds},
 			{Plugin: "sites", Func: "hotline.(*flattenedFileObject).ReadFrom", Kinds: []string{"site"}},
+			// the files of a folder upload are published by the same rule: a name becomes final only
+			// after its item was received completely
+			{Plugin: "sites", Func: "hotline.UploadFolderHandler", Kinds: []string{"site"}},
 			{Plugin: "handler-contract", Func: "mobius.HandleUploadFile", Kinds: []string{"site"}},
 			{Plugin: "sites", Func: "hotline.(*OSFileStore).OpenFile", Kinds: []string{"site"}},
 			{Plugin: "sites", Func: "hotline.(*OSFileStore).Rename", Kinds: []string{"site"}},
